@@ -26,7 +26,7 @@ ENGINE = "E1"
 TECHNIQUE = ("exhaustive enumeration of all (P,S) programs x deviation-bounded parameter configurations; P@S and its "
              "results() are re-derived from call_Fq on P alone and call_kernel on S alone")
 RULE = ("every (P,S) pair x every combination of <=D dimensions off default (ER mode, beta, P dispersity x2, "
-        "S.radius_effective dispersity, S parameters, P sizes, volfraction, user radius_effective, 2-D, magnetic P); "
+        "S.radius_effective dispersity, S parameters, P sizes, volfraction, user radius_effective, 2-D, jitter, magnetic P); "
         "non-trivial = S(q) differs from 1 by >1e-6 at some q and the result is finite")
 ASSUMPTIONS = [
     "call_Fq on P alone (<F>, <F^2>, R_eff, V_shell, V_form/V_shell; decided by C01) and call_kernel on S alone are the reference",
@@ -109,6 +109,8 @@ def _dims(ctx, pname, sname):
     dims.append(("vf", 1.0, [ctx.factor(1)]))
     dims.append(("reff", 50.0, [45.0 * (1.0 if ctx.seed == 0 else ctx.factor(2))]))
     dims.append(("dim", "1d", ["2d"]))
+    if pinfo.parameters.orientation_parameters:
+        dims.append(("opd", 0, [1]))          # jitter; acts in 2-D only
     if pinfo.parameters.nmagnetic and not is_py(pname):
         # pure-Python models refuse magnetism outright (finding of C06, not a P@S matter)
         dims.append(("mag", 0, [1]))
@@ -211,6 +213,10 @@ def run_case(case, ctx):
             br.append("P-dispersity")
     if cfg.get("pd1") and cfg.get("pd2"):
         br.append("P-dispersity-2")
+    if cfg.get("opd"):
+        pd.update({"theta_pd": 10.0, "theta_pd_n": 3, "theta_pd_type": "gaussian", "theta_pd_nsigma": 2.0})
+        if dim == "2d":
+            br.append("P-orientation-dispersity-2d")
     mag = {}
     if cfg.get("mag"):
         sld = [p.name for p in pinfo.parameters.call_parameters if p.type == "sld"][0]
@@ -392,3 +398,4 @@ def finish(ctx, report):
     report.require("S-reff-dispersity-ignored", 10, "dispersed S.radius_effective overridden by P")
     report.require("magnetic-P-2d", 10, "magnetic P in 2-D")
     report.require("2d", 50, "2-D data")
+    report.require("P-orientation-dispersity-2d", 10, "jitter on an oriented P in 2-D")
